@@ -1,13 +1,14 @@
 package main
 
 import (
-	"golang.org/x/tools/go/ssa"
 	"fmt"
 	"go/ast"
-	"go/parser"
 	"go/constant"
+	"go/parser"
 	"go/token"
 	"go/types"
+	"golang.org/x/tools/go/ssa"
+	"os"
 	"sort"
 	"strings"
 
@@ -453,29 +454,29 @@ type reviewedEntry struct {
 // parameters and functions are resolved objects). Requires names a guard
 // fact that must still be present in the function.
 var c05AccessorReviewed = []reviewedEntry{
-	{"GetStringValue", "nodes[0]", "guarded by len(nodes) == 0 ⇒ return", "lenguard"},
-	{"invalidDatum.Boolean", "panic(fmt.Errorf(\"%s: Unable to convert datum to a boolean.\", context))", "an invalidDatum never reaches a result: every NewInvalidDatum() follows an execError call, which always panics (checked as a separate R05.10 obligation)", ""},
-	{"invalidDatum.Literal", "panic(fmt.Errorf(\"%s: Unable to convert datum to a string.\", context))", "see invalidDatum.Boolean", ""},
-	{"invalidDatum.Number", "panic(fmt.Errorf(\"%s: Unable to convert datum to a number.\", context))", "see invalidDatum.Boolean", ""},
+	{"GetStringValue", "‹[]xutils.XpathNode›[0]", "guarded by len(nodes) == 0 ⇒ return", "lenguard"},
+	{"invalidDatum.Boolean", "panic(fmt.Errorf(\"%s: Unable to convert datum to a boolean.\", ‹string›))", "an invalidDatum never reaches a result: every NewInvalidDatum() follows an execError call, which always panics (checked as a separate R05.10 obligation)", ""},
+	{"invalidDatum.Literal", "panic(fmt.Errorf(\"%s: Unable to convert datum to a string.\", ‹string›))", "see invalidDatum.Boolean", ""},
+	{"invalidDatum.Number", "panic(fmt.Errorf(\"%s: Unable to convert datum to a number.\", ‹string›))", "see invalidDatum.Boolean", ""},
 }
 
 var c05Reviewed = []reviewedEntry{
-	{"CommonLex.CreateProgram", "string(expr)[:currentPosInLine]", "position = len(expr) - len(lineAtErr) ≤ len(expr); clamped to ≥ 0", "clamp"},
-	{"CommonLex.CreateProgram", "string(expr)[currentPosInLine:]", "same position", "clamp"},
-	{"CommonLex.Next", "x.line[size:]", "size from utf8.DecodeRune on a non-empty slice is in 1..len", "decode"},
-	{"next", "line[size:]", "size from utf8.DecodeRune on a non-empty slice is in 1..len", "decode"},
-	{"CommonLex.NextNonWhitespaceStringIs", "expr[0]", "guarded by len(expr) == 0 ⇒ return", "lenguard"},
-	{"CommonLex.NextNonWhitespaceStringIs", "expr[1:]", "guarded by len(expr) == 1 ⇒ return", "lenguard"},
-	{"ProgStack.Peek", "ps[len(ps) - 1]", "the builder stack holds exactly one program outside predicates: NewProgBuilder pushes one, Update pops and pushes", ""},
-	{"ProgStack.Pop", "(*ps)[len(*ps) - 1]", "guarded by len(*ps) < 1 ⇒ panic", "lenguard"},
-	{"ProgStack.Pop", "(*ps)[:len(*ps) - 1]", "guarded by len(*ps) < 1 ⇒ panic", "lenguard"},
+	{"CommonLex.CreateProgram", "string(‹string›)[:‹int›]", "position = len(expr) - len(lineAtErr) ≤ len(expr); clamped to ≥ 0", "clamp"},
+	{"CommonLex.CreateProgram", "string(‹string›)[‹int›:]", "same position", "clamp"},
+	{"CommonLex.Next", "‹*xpath.CommonLex›.line[‹int›:]", "size from utf8.DecodeRune on a non-empty slice is in 1..len", "decode"},
+	{"next", "‹[]byte›[‹int›:]", "size from utf8.DecodeRune on a non-empty slice is in 1..len", "decode"},
+	{"CommonLex.NextNonWhitespaceStringIs", "‹string›[0]", "guarded by len(expr) == 0 ⇒ return", "lenguard"},
+	{"CommonLex.NextNonWhitespaceStringIs", "‹string›[1:]", "guarded by len(expr) == 1 ⇒ return", "lenguard"},
+	{"ProgStack.Peek", "‹xpath.ProgStack›[len(‹xpath.ProgStack›) - 1]", "the builder stack holds exactly one program outside predicates: NewProgBuilder pushes one, Update pops and pushes", ""},
+	{"ProgStack.Pop", "(*‹*xpath.ProgStack›)[len(*‹*xpath.ProgStack›) - 1]", "guarded by len(*ps) < 1 ⇒ panic", "lenguard"},
+	{"ProgStack.Pop", "(*‹*xpath.ProgStack›)[:len(*‹*xpath.ProgStack›) - 1]", "guarded by len(*ps) < 1 ⇒ panic", "lenguard"},
 	{"ProgStack.Pop", "panic(fmt.Errorf(\"Encoding PredicateEnd before PredicateStart!\"))", "unreachable: Update is the only caller and the stack never becomes empty (NewProgBuilder pushes one program, nothing else pops)", ""},
-	{"getProgBldr", "lexer.(*exprLex)", "the generated parser is only ever handed the lexer that exprLex.Parse passes in", ""},
-	{"getProgBldr", "lexer.(*leafrefLex)", "the generated parser is only ever handed the lexer that leafrefLex.Parse passes in", ""},
-	{"getProgBldr", "lexer.(*pathEvalLex)", "the generated parser is only ever handed the lexer that pathEvalLex.Parse passes in", ""},
+	{"getProgBldr", "‹expr.exprLexer›.(*exprLex)", "the generated parser is only ever handed the lexer that exprLex.Parse passes in", ""},
+	{"getProgBldr", "‹leafref.leafrefLexer›.(*leafrefLex)", "the generated parser is only ever handed the lexer that leafrefLex.Parse passes in", ""},
+	{"getProgBldr", "‹path_eval.pathEvalLexer›.(*pathEvalLex)", "the generated parser is only ever handed the lexer that pathEvalLex.Parse passes in", ""},
 	{"CommonLex.Parse", "panic(\"CommonLex doesn't implement Parse()\")", "never called: each concrete lexer overrides Parse and the constructors call it on the concrete type", ""},
-	{"startsWithXML", "strings.ToLower(name)[0:3]", "guarded by len(name) < 3 ⇒ return", "lenguard"},
-	{"validateName", "name[0]", "guarded by len(name) == 0 ⇒ return", "lenguard"},
+	{"startsWithXML", "strings.ToLower(‹string›)[0:3]", "guarded by len(name) < 3 ⇒ return", "lenguard"},
+	{"validateName", "‹string›[0]", "guarded by len(name) == 0 ⇒ return", "lenguard"},
 	{"openPlugins", "", "", ""},
 }
 
@@ -708,6 +709,11 @@ func scanPanicObligations(w *World, r *Report, rule string, cone map[*types.Func
 				return true
 			}
 			es := normExpr(expr)
+			// for matching: locals rendered as their types (a renamed local is the same access)
+			en := localFreeExpr(p, expr)
+			if os.Getenv("YV_DUMP_REVIEWED") != "" {
+				fmt.Printf("REVIEWEDSITE\t%s\t%s\t%s\n", name, es, en)
+			}
 			c := name + ": " + es
 			// the compiler's own bounds-check elimination
 			switch x := expr.(type) {
@@ -729,13 +735,13 @@ func scanPanicObligations(w *World, r *Report, rule string, cone map[*types.Func
 			}
 			var rev *reviewedEntry
 			for i := range reviewed {
-				if reviewed[i].Func == name && reviewed[i].Expr == es {
+				if reviewed[i].Func == name && (reviewed[i].Expr == es || reviewed[i].Expr == en) {
 					rev = &reviewed[i]
 				}
 			}
 			for _, on := range ownerNames {
 				for i := range reviewed {
-					if rev == nil && reviewed[i].Func == on && reviewed[i].Expr == es {
+					if rev == nil && reviewed[i].Func == on && (reviewed[i].Expr == es || reviewed[i].Expr == en) {
 						rev = &reviewed[i]
 					}
 				}
@@ -743,7 +749,7 @@ func scanPanicObligations(w *World, r *Report, rule string, cone map[*types.Func
 			// the entry of a function that was inlined here (it exists no more): same expression
 			if rev == nil {
 				for i := range reviewed {
-					if rev == nil && vanished[reviewed[i].Func] && (reviewed[i].Expr == es || alphaNorm(reviewed[i].Expr, nil) == alphaNorm(es, nil)) {
+					if rev == nil && vanished[reviewed[i].Func] && (reviewed[i].Expr == es || reviewed[i].Expr == en || alphaNorm(reviewed[i].Expr, nil) == alphaNorm(es, nil)) {
 						rev = &reviewed[i]
 					}
 				}
